@@ -87,6 +87,7 @@ def strip_lifetimes(t):
     return re.sub(r"'\w+\s*,?\s*", '', t)
 
 
+_TRIM_MODS = re.compile(r'(?<![\w:])(?:[a-z_][a-z0-9_]*::)+(?=[A-Z])')
 _IMPL_AT = re.compile(r'<impl at ([^:>]+):(\d+):(\d+): (\d+):(\d+)>')
 
 
@@ -1336,8 +1337,10 @@ class Interp:
         if ' as ' in func_text:
             # `<T as some::path::Trait<..>>::m` -> `<T as Trait<..>>::m` (the printed trait path depends on name uniqueness)
             short = _QUAL_PATH.sub(' as ', func_text)
+        # rustc prints a path in full when its last name is not unique in the crate graph: also try the text with module prefixes removed
+        trim = _TRIM_MODS.sub('', func_text)
         for rx, fn in self.override:
-            if rx.search(func_text) or rx.search(short):
+            if rx.search(func_text) or rx.search(short) or rx.search(trim):
                 r = fn(self, st, func_text, args, fr)
                 if r is not NotImplemented:
                     return r
@@ -1350,13 +1353,13 @@ class Interp:
             outs = self.run_body(st, body, args)
             return self.try_merge(snap, outs)
         for rx, fn, label in self.models:
-            if rx.search(canon) or rx.search(func_text) or rx.search(short):
+            if rx.search(canon) or rx.search(func_text) or rx.search(short) or rx.search(trim):
                 self.stats['models_used'].add(label)
                 r = fn(self, st, func_text, args, fr)
                 if r is not NotImplemented:
                     return r
         for rx in self.allow:
-            if rx.search(canon) or rx.search(func_text) or rx.search(short):
+            if rx.search(canon) or rx.search(func_text) or rx.search(short) or rx.search(trim):
                 self.stats['allow_used'].add(rx.pattern)
                 return [Outcome(st, 'ret', Opaque('allow:' + canon[:40]))]
         raise Unmodelled('call ' + func_text + ((' in ' + fr.body.name) if fr else ''))
